@@ -145,6 +145,7 @@ type Reset struct {
 	DiskSz   int    `json:"disksz"`
 	Unstable bool   `json:"unstable"`
 	Root     string `json:"root"`
+	KeepHist bool   `json:"keephist"` // the trace contains crashprobe events: keep every abstract state
 }
 
 type Restart struct {
